@@ -1321,6 +1321,8 @@ def fam_C16(rng, tier):
     base += fam_C07(rng, 'quick')[-8:]
     base += fam_C06(rng, 'quick')[:20]
     for name, lines in base:
+        if any(l.startswith('HOLD') for l in lines):
+            continue          # a POLL of a held task is not a spurious poll
         body = [l for l in lines if not l.startswith('CFG')]
         variants = [('wake', 'exec=wake', False, False), ('sweep', 'exec=sweep', False, False),
                     ('spurious', 'exec=wake', True, False), ('bytewise', 'exec=wake rdp=1', False, True),
